@@ -150,7 +150,8 @@ static void env_sub(void)
 		G_bstate = 2;
 	}
 }
-static void env_step(void) { if (G_env_on) { env_sub(); env_sub(); } }
+unsigned long G_env_more;
+static void env_step(void) { if (G_env_on) { env_sub(); env_sub(); if (G_env_more) { env_sub(); env_sub(); } } }
 
 #ifdef ENV_MODE
 void h_dequeue_env(void)
@@ -164,7 +165,7 @@ void h_dequeue_env(void)
 	D0->parent.dummy = 1; D0->parent.next = nreal ? &A1 : 0; D0->q = &q;
 	q.head = lead ? &D0->parent : &A1;
 	q.tail = nreal == 2 ? &A2 : (nreal == 1 ? &A1 : &D0->parent);
-	q.queue_call_rcu = rec_call_rcu; G_rcu_calls = 0; G_free_calls = 0; G_bstate = 0; G_env_on = 1;
+	q.queue_call_rcu = rec_call_rcu; G_rcu_calls = 0; G_free_calls = 0; G_bstate = 0; G_env_on = 1; G_env_more = 1;
 
 	r = cds_lfq_dequeue_rcu(&q);
 
@@ -187,5 +188,39 @@ void h_dequeue_env(void)
 	VERIF_COVER(nreal == 1 && G_bstate == 2 && r == &A1);
 	VERIF_COVER(nreal == 0 && r == &B);
 	VERIF_COVER(nreal == 2 && G_bstate == 2);
+}
+
+/* enqueue of N racing with one concurrent enqueue of B (its two CAS steps and its helping at arbitrary points).
+ * In particular: after N was linked, the other enqueuer may help the tail onto N, append B behind N and move the tail
+ * to B BEFORE the enqueuer of N gets to its own tail update - which therefore has to be a compare-and-swap against the
+ * tail it loaded (a plain store would drag the tail back onto a node that is no longer last). */
+void h_enqueue_env(void)
+{
+	qn_t N, *p, *last = 0; unsigned long nreal, lead, hops, seenN = 0, seenB = 0, seenA = 0;
+	nreal = nondet_ulong(); lead = nondet_bool();
+	VERIF_REQUIRE(nreal <= 1 && (lead || nreal >= 1));
+	D0 = malloc(sizeof(*D0)); VERIF_REQUIRE(D0 != 0);
+	A1.dummy = B.dummy = 0; B.next = 0; A1.next = 0;
+	D0->parent.dummy = 1; D0->parent.next = nreal ? &A1 : 0; D0->q = &q;
+	q.head = lead ? &D0->parent : &A1;
+	q.tail = nreal ? &A1 : &D0->parent;
+	q.queue_call_rcu = rec_call_rcu; G_rcu_calls = 0; G_free_calls = 0; G_bstate = 0; G_env_on = 1; G_env_more = 1;	/* up to 4 environment steps between two accesses */
+	cds_lfq_node_init_rcu(&N);
+
+	cds_lfq_enqueue_rcu(&q, &N);
+
+	env_step(); G_env_on = 0;
+	if (G_bstate == 1) { if (q.tail == G_btail) q.tail = &B; G_bstate = 2; }
+	for (p = q.head, hops = 0; p && hops < 6; p = p->next, hops++) {
+		if (p == &N) seenN++;
+		if (p == &B) seenB++;
+		if (p == &A1) seenA++;
+		last = p;
+	}
+	VERIF_ASSERT(hops < 6, "ENV lfq enqueue: chain is finite (no cycle)");
+	VERIF_ASSERT(seenN == 1 && seenA == nreal && seenB == (G_bstate == 2 ? 1UL : 0UL), "ENV lfq enqueue: the new node, the old node and the concurrently enqueued node are each queued exactly once");
+	VERIF_ASSERT(q.tail == last || (last != 0 && q.tail->next == last), "ENV lfq enqueue: the tail designates the last node or its predecessor - it is never dragged back behind a node appended meanwhile");
+	VERIF_ASSERT(G_bstate != 2 || q.tail == last, "ENV lfq enqueue: once both enqueues completed their tail updates the tail is the last node");
+	VERIF_COVER(G_bstate == 2 && N.next == &B); VERIF_COVER(G_bstate == 2 && B.next == &N); VERIF_COVER(G_bstate == 0);
 }
 #endif
